@@ -534,6 +534,78 @@ fn check_c02(p: &RtProgram, insts: &[Inst], roots: &[usize], start: u64, real: &
         info.violate(Violation::new("C02", "event-count", format!("profiler counts {} events, {} were handled", real.event_count, real.handled.len())));
         return;
     }
+    // the clock must not move backwards when the run is driven in steps either (any until-time, also one in the past)
+    if !p.steps.is_empty() {
+        let r = std::panic::catch_unwind(std::panic::AssertUnwindSafe(|| {
+            let mut rt = make_runtime(p, false);
+            rt.start();
+            let mut obs: Vec<(usize, u64)> = Vec::new();
+            for step in &p.steps {
+                let now = ns_of(rt.sim_time());
+                match step {
+                    Step::N { k } => {
+                        rt.dispatch_n_events((*k).min(1000) as usize);
+                    }
+                    Step::Until { kind, a } => {
+                        let t = match kind % 3 {
+                            0 => now.saturating_sub(*a % 1000),
+                            1 => now,
+                            _ => now + cap_delta(*a, p.t_ns.max(1)),
+                        };
+                        rt.dispatch_events_until(st(t));
+                    }
+                    Step::Add { .. } => {}
+                }
+                obs.push((rt.app.log.handled.len(), ns_of(rt.sim_time())));
+            }
+            rt.dispatch_all();
+            let handled = rt.app.log.handled.clone();
+            let _ = rt.finish();
+            (obs, handled)
+        }));
+        match r {
+            Ok((obs, handled)) => {
+                info.probe("clock_checked_under_stepping");
+                let mut last = start;
+                let mut oi = 0;
+                for (i, (uid, clock)) in handled.iter().enumerate() {
+                    while oi < obs.len() && obs[oi].0 <= i {
+                        if obs[oi].1 < last {
+                            info.violate(Violation::new("C02", "clock-regress", format!(
+                                "while paused after a step the clock shows {} ns, it had already reached {last} ns", obs[oi].1)).fact("stepping", 1));
+                            return;
+                        }
+                        last = obs[oi].1;
+                        oi += 1;
+                    }
+                    if *clock < last {
+                        info.violate(Violation::new("C02", "clock-regress", format!(
+                            "stepped run: clock went from {last} ns back to {clock} ns (event {uid})")).fact("stepping", 1));
+                        return;
+                    }
+                    if let Some(inst) = insts.get(*uid) {
+                        if inst.time != *clock {
+                            info.violate(Violation::new("C02", "clock-mismatch", format!(
+                                "stepped run: handler of event {uid} saw SimTime::now() = {clock} ns, scheduled for {} ns", inst.time)).fact("stepping", 1));
+                            return;
+                        }
+                    }
+                    last = *clock;
+                }
+                for o in &obs[oi..] {
+                    if o.1 < last {
+                        info.violate(Violation::new("C02", "clock-regress", format!(
+                            "while paused after a step the clock shows {} ns, it had already reached {last} ns", o.1)).fact("stepping", 1));
+                        return;
+                    }
+                    last = o.1;
+                }
+            }
+            Err(pl) => {
+                let _ = crate::take_panic(pl); // a panicking step is C10's statement
+            }
+        }
+    }
     let handler_scheduled = insts.iter().any(|i| !i.children.is_empty());
     info.nontrivial = handler_scheduled && (start > 0 || !real.past_attempts.is_empty());
 }
@@ -546,6 +618,16 @@ fn check_c03(model: &Model, real: &RealRun, info: &mut RunInfo) {
     // run at the timestamps they were scheduled with, that is C02's statement, not this one
     if real.handled.iter().any(|(uid, clock)| model.insts.get(*uid).map_or(true, |i| i.time != *clock)) {
         return;
+    }
+    // every event handled exactly once is C02's statement; the tie rule ranks the events that did run
+    {
+        let mut a: Vec<usize> = model.handled.iter().map(|h| h.0).collect();
+        let mut b: Vec<usize> = real.handled.iter().map(|h| h.0).collect();
+        a.sort_unstable();
+        b.sort_unstable();
+        if a != b {
+            return;
+        }
     }
     let mut tie_group = false;
     for (i, (m, r)) in model.handled.iter().zip(real.handled.iter()).enumerate() {
@@ -821,12 +903,6 @@ fn check_c10(p: &RtProgram, insts: &[Inst], roots: &[usize], start: u64, model: 
             "events added while paused were not each handled exactly once: handled {ext_got:?}, added {ext_exp:?}")));
         return;
     }
-    if let Some(w) = stepped.handled.windows(2).find(|w| static_time(w[0].0, insts, &ext_list) > static_time(w[1].0, insts, &ext_list)) {
-        info.violate(Violation::new("C10", "stepped-time-order", format!(
-            "stepped run handled event {} (timestamp {} ns) before event {} (timestamp {} ns)",
-            w[0].0, static_time(w[0].0, insts, &ext_list), w[1].0, static_time(w[1].0, insts, &ext_list))));
-        return;
-    }
     if !stepped.remaining.is_empty() {
         info.violate(Violation::new("C10", "stepped-remaining", format!("{} events left undelivered after dispatch_all", stepped.remaining.len())));
         return;
@@ -951,6 +1027,15 @@ pub fn generate(prop: &str, rng: &mut Rng, tier: Tier) -> RtProgram {
                 0 => LimCall::MaxItr { n: pick_count(rng, total) },
                 1 => LimCall::MaxTime { ns: pick_time(rng, &times) },
                 _ => LimCall::Limit { lim: gen_lim(rng, 3, total, &times) },
+            });
+        }
+    }
+    if prop == "C02" && rng.chance(1, 3) {
+        for _ in 0..1 + rng.small(8) {
+            prog.steps.push(if rng.chance(1, 2) {
+                Step::N { k: rng.small(5) }
+            } else {
+                Step::Until { kind: rng.below(3) as u8, a: rng.below(t_ns.saturating_mul(8).max(2)) }
             });
         }
     }
